@@ -150,6 +150,27 @@ Definition rx_is_match (eqc : N -> N -> bool) (r : rx) (s : list N) : bool :=
   if rx_astart r then rx_match eqc (rx_toks r) (rx_aend r) s
   else exists_tail (rx_match eqc (rx_toks r) (rx_aend r)) s.
 
+(* the same fragment under the regex flags that regexp_is_match accepts per row:
+   s (dotnl: '.' also matches '\n'), m (ml: '^' / '$' also match after / before a '\n'), i (through eqc).
+   rx_is_match is the instance dotnl = true, ml = false (Proofs/C20_Like.v: rx_flags_s_is_reference). *)
+Definition dot_ok (dotnl : bool) (x : N) : bool := if dotnl then true else negb (x =? 10).
+Fixpoint rx_match_f (eqc : N -> N -> bool) (dotnl ml : bool) (ts : list tok) (aend : bool) : list N -> bool :=
+  match ts with
+  | [] => fun s => if aend then match s with [] => true | x :: _ => if ml then x =? 10 else false end else true
+  | TLit c :: t => fun s => match s with [] => false | x :: s' => if eqc x c then rx_match_f eqc dotnl ml t aend s' else false end
+  | TDot :: t => fun s => match s with [] => false | x :: s' => if dot_ok dotnl x then rx_match_f eqc dotnl ml t aend s' else false end
+  | TDotStar :: t =>
+      fix star (s : list N) : bool :=
+        if rx_match_f eqc dotnl ml t aend s then true
+        else match s with [] => false | x :: s' => if dot_ok dotnl x then star s' else false end
+  end.
+(* unanchored search; `at_start`: the position is the start of the text or (ml) follows a '\n' *)
+Fixpoint rx_search_f (f : list N -> bool) (astart ml at_start : bool) (s : list N) : bool :=
+  if (if astart then (if at_start then f s else false) else f s) then true
+  else match s with [] => false | x :: s' => rx_search_f f astart ml (if ml then x =? 10 else false) s' end.
+Definition rx_is_match_f (eqc : N -> N -> bool) (dotnl ml : bool) (r : rx) (s : list N) : bool :=
+  rx_search_f (rx_match_f eqc dotnl ml (rx_toks r) (rx_aend r)) (rx_astart r) ml true s.
+
 (* Predicate::like *)
 Definition classify_like (p : list N) : pred :=
   if negb (contains_like_pattern p) then PEq p
